@@ -4,6 +4,7 @@ import (
 	"fmt"
 	"math/rand"
 	"sort"
+	"unsafe"
 
 	"github.com/cloudwego/gopkg/container/strmap"
 
@@ -157,9 +158,34 @@ func c07CheckS2S(cs *drv.Case, m *strmap.Str2Str, want map[string]string, probes
 
 func monC07(c *drv.Ctx) {
 	// (0) never-loaded and empty maps
-	c.Stage("never-loaded", 8, true, func(cs *drv.Case) {
+	c.Stage("never-loaded", 10, true, func(cs *drv.Case) {
 		probes := []string{"", "x", "\x00", "some longer key", string(gen.Bytes(cs.R, 100))}
 		switch cs.Idx {
+		case 8: // the zero value of Str2Str (its loaders create the inner parts lazily, so it is a usable map)
+			var m strmap.Str2Str
+			for _, p := range probes {
+				if _, ok := m.Get(p); ok {
+					cs.Fail("strmap-never-loaded", M{"map": "zero-value Str2Str"}, M{"message": "a key is reported present"})
+				}
+			}
+			if m.Len() != 0 {
+				cs.Fail("strmap-len", M{"map": "zero-value Str2Str"}, M{"len": m.Len()})
+			}
+			if err := m.LoadFromMap(map[string]string{"k": "v"}); err != nil {
+				cs.Fail("strmap-load-error", M{"map": "zero-value Str2Str"}, M{"err": errString(err)})
+			} else if v, ok := m.Get("k"); !ok || v != "v" {
+				cs.Fail("strmap-loaded-key-missing", M{"map": "zero-value Str2Str"}, nil)
+			}
+		case 9: // a pointer to a zero-value StrMap that is never loaded
+			var m strmap.StrMap[int]
+			for _, p := range probes {
+				if _, ok := m.Get(p); ok {
+					cs.Fail("strmap-never-loaded", M{"map": "zero-value StrMap"}, M{"message": "a key is reported present"})
+				}
+			}
+			if m.Len() != 0 {
+				cs.Fail("strmap-len", M{"map": "zero-value StrMap"}, M{"len": m.Len()})
+			}
 		case 0:
 			m := strmap.New[int]()
 			for _, p := range probes {
@@ -333,6 +359,99 @@ func monC07(c *drv.Ctx) {
 		c07CheckS2S(cs, s, ws, probesFor(cs.R, keys), fmt.Sprintf("fresh n=%d", n))
 		cs.Count(n >= 2, "size", n)
 		cs.C.ObsMax("max_keys_loaded", int64(n))
+	})
+
+	// (2b) a load that fails because a key is longer than 4 GiB must change nothing (the key is a view
+	// of untouched zero pages: address space, not memory)
+	if !c.Slow() && c.Flavour == "plain" {
+		c.Stage("failed-load-oversized-key", 4, true, func(cs *drv.Case) {
+			huge := make([]byte, 1<<32+1)
+			hk := unsafe.String(&huge[0], len(huge))
+			want := map[string]int{"a": 1, "b": 2, "": 3, "abc": 4}
+			wantS := map[string]string{"a": "1", "b": "22", "": "333", "abc": "4444"}
+			im := strmap.NewFromMap(want)
+			sm := strmap.NewStr2StrFromMap(wantS)
+			var kk []string
+			if cs.Idx%2 == 0 {
+				kk = []string{hk, "x"}
+			} else {
+				kk = []string{"x", "y", hk}
+			}
+			var e1, e2 error
+			if cs.Idx < 2 {
+				e1 = im.LoadFromSlice(kk, make([]int, len(kk)))
+				e2 = sm.LoadFromSlice(kk, []string{"REJECTED-1", "REJECTED-2", "REJECTED-3"}[:len(kk)])
+			} else {
+				e1 = im.LoadFromSlice(kk, make([]int, len(kk)))
+				e2 = sm.LoadFromSlice(kk, []string{"R", "", "REJECTED"}[:len(kk)])
+			}
+			if e1 == nil || e2 == nil {
+				cs.Fail("strmap-oversized-key-accepted", nil, M{"errors": fmt.Sprint(e1, e2)})
+				return
+			}
+			probes := []string{"a", "b", "", "abc", "x", "y", "ab", "REJECTED-1"}
+			cs.Desc = M{"oversized_key_position": cs.Idx % 2, "key_len": len(hk)}
+			if !c07CheckInt(cs, im, want, probes, "after a load that failed with 'key too large'") || !c07CheckS2S(cs, sm, wantS, probes, "after a load that failed with 'key too large'") {
+				return
+			}
+			cs.Count(true, "oversized", cs.Idx)
+			cs.C.Obs("failed loads checked", 1)
+		})
+	}
+
+	// (2c) reloading an instance with keys and values that were obtained from the same instance
+	c.Stage("reload-from-own-strings", c.Pick(600, 20000), false, func(cs *drv.Case) {
+		r := cs.R
+		n := 2 + r.Intn(120)
+		keys := genKeys(r, n)
+		w := map[string]int{}
+		ws := map[string]string{}
+		vals := make([]int, n)
+		svals := make([]string, n)
+		for i, k := range keys {
+			vals[i] = i + 1
+			svals[i] = string(gen.Bytes(r, 1+r.Intn(12)))
+			w[k], ws[k] = vals[i], svals[i]
+		}
+		im := strmap.NewFromSlice(keys, vals)
+		sm := strmap.NewStr2StrFromSlice(keys, svals)
+		// take the strings back out of the maps (they may point into the maps' own storage)
+		var ownKeys []string
+		var ownVals []int
+		for i := 0; i < im.Len(); i++ {
+			k, v := im.Item(i)
+			if r.Intn(2) == 0 {
+				ownKeys = append(ownKeys, k)
+				ownVals = append(ownVals, v)
+			}
+		}
+		w2 := map[string]int{}
+		for i, k := range ownKeys {
+			w2[string(append([]byte(nil), k...))] = ownVals[i]
+		}
+		var sk, sv []string
+		ws2 := map[string]string{}
+		for i, k := range keys {
+			v, _ := sm.Get(keys[(i+1)%len(keys)]) // rotate the values, taken from the map itself
+			sk = append(sk, k)
+			sv = append(sv, v)
+			ws2[k] = string(append([]byte(nil), v...))
+		}
+		if err := im.LoadFromSlice(ownKeys, ownVals); err != nil {
+			cs.Fail("strmap-load-error", nil, M{"err": errString(err)})
+			return
+		}
+		if err := sm.LoadFromSlice(sk, sv); err != nil {
+			cs.Fail("strmap-load-error", nil, M{"err": errString(err)})
+			return
+		}
+		cs.Desc = M{"n": n, "kept": len(ownKeys)}
+		probes := probesFor(r, keys)
+		if !c07CheckInt(cs, im, w2, probes, "after a reload with keys taken from the map's own Item()") || !c07CheckS2S(cs, sm, ws2, probes, "after a reload with values taken from the map's own Get()") {
+			return
+		}
+		cs.Count(true, "own", cs.Idx)
+		cs.C.Obs("reloads from own strings", 1)
 	})
 
 	// (3) long collision chains: many big loads with fresh hash seeds (the longest chain of a load
